@@ -653,6 +653,9 @@ def life_judge(c, o):
             exp = {CLASSMAP[x] for x in e["v"]}
             if ob.get("v") not in exp:
                 bad.append("step %d %s#%d = %s, specification says %s" % (k, h["op"], h["a"], ob.get("v"), sorted(exp)))
+        elif "qerr" in e:
+            if ob.get("v") in ("ok", None):
+                bad.append("step %d query#%d %s succeeded with %s, specification says the evaluation fails" % (k, h["a"], rule_text(h["arg"]), rows(ob.get("rows"))))
         elif "rows" in e:
             exp = sorted(tuple(r[1:]) for r in e["rows"])
             if rows(ob.get("rows")) != exp or ob.get("v") != "ok":
@@ -767,7 +770,7 @@ def c11(run):
     driver = core.build_driver(run.work)
     r = core.tlc(run.work, "GoRoutines", "GoRoutines_fixed", deadlock=False)
     run.add_tlc(r, "L1 protocol: NoStranded + liveness + export")
-    for neg in ("today", "neg_done", "neg_producer"):
+    for neg in ("today", "neg_done", "neg_producer", "neg_errsend"):
         rn = core.tlc(run.work, "GoRoutines", "GoRoutines_" + neg, expect_violation=True)
         run.add_tlc(rn, "negative model " + neg)
         if not rn.violated:
